@@ -1064,6 +1064,8 @@ struct Interp {
       } else if (auto* f = std::get_if<FutOn>(&cur); f && f->Ready()) {
         got = ToR(std::move(*f).Get());
         cur = Handle{};
+      } else if (std::holds_alternative<Fut>(cur) || std::holds_alternative<FutOn>(cur)) {
+        cur = Handle{};  // Get() would block for ever in a single thread: the future is given up
       }
     } else if (c == "flush") {
       for (int fuel = 0; fuel < 100000; ++fuel) {
